@@ -146,7 +146,11 @@ Definition with_is_link_m (w : item) : bool :=
   | _ => false
   end.
 
+(* generic in the IRI comparison [ideq a b cs] = a.Equals(b, cs), like module EqG of Model/Equal.v (builder b47); the
+   names without prefix after the module are the instance with ideq, as abbreviations *)
+Module EtG.
 Section Interp.
+  Variable ideq : bytes -> bytes -> bool -> bool.
   Variable rec : item -> item -> outcome bool.        (* ItemsEqual, one level down *)
   Variable lookup : kind -> option eshape.
 
@@ -162,10 +166,10 @@ Section Interp.
         | _ => Ok (negb (is_collection_m w))
         end
     | GNilOrNotLink => Ok (is_nil w || negb (is_link w))
-    | GIdStrict => obind (get_link w) (fun i => Ok (negb (iri_eqb (get_str F_ID ofs) i true)))
+    | GIdStrict => obind (get_link w) (fun i => Ok (negb (ideq (get_str F_ID ofs) i true)))
     | GTypeFold => obind (get_type w) (fun t => Ok (negb (fold_eqb (get_str F_Type ofs) t)))
     | GLinkHref =>
-        obind (get_link w) (fun i => Ok (with_is_link_m w && negb (iri_eqb i (get_str F_ID ofs) false)))
+        obind (get_link w) (fun i => Ok (with_is_link_m w && negb (ideq i (get_str F_ID ofs) false)))
     end.
 
   Fixpoint run_guards (gs : list eguard) (ofs : fields) (w : item) (k : outcome bool) : outcome bool :=
@@ -189,13 +193,13 @@ Section Interp.
         then obind (call b ofs (IObj true view wfs)) (fun x => run_csteps call self view r ofs wfs (res && x))
         else run_csteps call self view r ofs wfs res
     | CIdStrict :: r =>
-        if iri_eqb (get_str F_ID ofs) (get_str F_ID wfs) true then run_csteps call self view r ofs wfs res
+        if ideq (get_str F_ID ofs) (get_str F_ID wfs) true then run_csteps call self view r ofs wfs res
         else Ok false
     | CTypeFold :: r =>
         if fold_eqb (get_str F_Type ofs) (get_str F_Type wfs) then run_csteps call self view r ofs wfs res
         else Ok false
     | CCmp c :: r =>
-        obind (cmp_one cfg_fixed rec c ofs wfs)
+        obind (EqG.cmp_one ideq cfg_fixed rec c ofs wfs)
               (fun b => if b then run_csteps call self view r ofs wfs res else Ok false)
     end.
 
@@ -224,8 +228,16 @@ Section Interp.
 End Interp.
 
 (* x.Equals(w) as the generated table says *)
-Definition equals_method_t (tbl : list eqfn) (rec : item -> item -> outcome bool) :=
-  interp_method rec (table_shape tbl).
+Definition equals_method_t ideq (tbl : list eqfn) (rec : item -> item -> outcome bool) :=
+  interp_method ideq rec (table_shape tbl).
+End EtG.
+Notation guard_fires := (EtG.guard_fires iri_eqb).
+Notation run_guards := (EtG.run_guards iri_eqb).
+Notation run_csteps := (EtG.run_csteps iri_eqb).
+Notation interp_with := (EtG.interp_with iri_eqb).
+Notation deleg_fuel := EtG.deleg_fuel.
+Notation interp_method := (EtG.interp_method iri_eqb).
+Notation equals_method_t := (EtG.equals_method_t iri_eqb).
 
 (* ------------------------------------------------------------------ the model's side of the condition *)
 Definition model_shape (k : kind) : option eshape :=
